@@ -101,6 +101,22 @@ def reindex(ctx, shape, pos, lkind, k, form='list', fill='nan', raise_error=Fals
     return ctx.done(same(ctx, res, exp, check_kind=kind), ctx.observe(res))
 
 
+def width(ctx, fillkind):
+    """decided by its real-stack replay (dtype widths are not modelled): an integer array reindexed with a narrow-float fill value
+    keeps the slices at existing labels exactly"""
+    np = ctx.np
+    big = [16777217, 16777219, 33554433]
+    labels = [1, 2, 3]
+    a = ctx.mk(['x'], [labels], big, lkinds=['i'], kind='i')
+    fv = {'float32': np.float32, 'float16': np.float16}[fillkind](7.0)
+    r = ctx.call(lambda: a.reindex_axis([3, 9, 1, 2], axis='x', fill_value=fv))
+    if r[0] != 'ok':
+        return ctx.done(False, r[1])
+    got = r[1].values.tolist()
+    ok = ctx.AND(got[0] == 33554433, got[2] == 16777217, got[3] == 16777219, got[1] == 7.0, r[1].axes[0].values.tolist() == [3, 9, 1, 2])
+    return ctx.done(ok, ctx.observe(r[1]))
+
+
 def reindex_like(ctx, lk0, lk1):
     """reindex_like applies the same rule to every dimension shared with the template"""
     a, ref, dims, labels = build(ctx, [2, 2], [lk0, lk1])
@@ -148,6 +164,8 @@ def templates():
     for lk, dk, fill in (('i', 'f', 'nan'), ('i', 'i', 'sym'), ('U', 'f', 'sym'), ('f', 'i', 'nan')):
         add('twice-%s-%s-%s' % (lk, dk, fill), 'reindex', cost=2, shape=[3], pos=0, lkind=lk, k=3 if lk == 'i' and dk == 'f' else 2, fill=fill, dkind=dk, twice=True)
     add('twice-2d', 'reindex', cost=3, shape=[2, 3], pos=1, lkind='i', k=2, twice=True)
+    for fk in ('float32', 'float16'):
+        add('width-%s-fill' % fk, 'width', cost=0.1, fillkind=fk)
     add('raise-error', 'reindex', cost=2, shape=[3], pos=0, lkind='i', k=2, raise_error=True)
     add('raise-error-U', 'reindex', cost=2, shape=[2], pos=0, lkind='U', k=2, raise_error=True)
     for method in ('left', 'right'):
